@@ -262,6 +262,8 @@ def o_surrounding(src, eager, data, kw):
         return 'lazy variant ends at %d, eager at %d' % (st.tell(), epos)
     if not C.veq(v, ev):
         return 'lazy variant gives %r, eager %r' % (v, ev)
+    if st.tell() != epos:
+        return 'reading the lazy members after the parse moved the stream to %d, the parse left it at %d' % (st.tell(), epos)
     return None
 
 
@@ -373,6 +375,10 @@ def run(tier, seed):
                 outer_e = 'Struct("a"/%s, "b"/Byte, "c"/%s, "d"/Byte)' % (el, el)
                 acc.check('lazy_surrounding', outer_l, eager=outer_e, data=d + b'\x07' + d + b'\x08', kw=kw)
                 cases.append(dict(src=outer_l, op='parse', kw=kw, data=d + b'\x07' + d + b'\x08'))
+                # the lazy value is read by a later member of the same parse, which then goes on reading
+                mid_l = 'Struct("a"/Lazy(%s), "b"/Byte, "p"/Computed(lambda ctx: ctx.a()), "q"/Computed(lambda ctx: ctx.a()), "d"/Int16ub)' % el
+                mid_e = 'Struct("a"/%s, "b"/Byte, "p"/Computed(this.a), "q"/Computed(this.a), "d"/Int16ub)' % el
+                acc.check('lazy_surrounding', mid_l, eager=mid_e, data=d + b'\x07\x12\x34', kw=kw)
     # the model forces a Lazy where it is parsed, the implementation when the value is read: on inputs both reject
     # the failing member may differ (truncated data behind a skipped field), which the property does not speak about
     def project(m, i):
